@@ -82,7 +82,7 @@ where
     monitors(st);
 }
 
-fn run_one<A, S>(st: &mut St, init: u8, init_arg: (usize, usize))
+fn run_one<A, S>(st: &mut St, init: u8, init_arg: (usize, usize), unalloc: Option<fn() -> Bump<A, S>>)
 where
     A: bump_scope::BaseAllocator<S::GuaranteedAllocated> + Default,
     S: bump_scope::settings::BumpAllocatorSettings,
@@ -99,6 +99,10 @@ where
         2 => {
             let _ = writeln!(st.out, "INIT C {} {}", init_arg.0, init_arg.1);
             Bump::<A, S>::try_with_capacity_in(Layout::from_size_align(init_arg.0, init_arg.1).unwrap(), A::default()).ok()
+        }
+        3 if unalloc.is_some() => {
+            let _ = writeln!(st.out, "INIT U");
+            Some((unalloc.unwrap())())
         }
         _ => {
             let _ = writeln!(st.out, "INIT N");
@@ -180,10 +184,20 @@ where
 }
 
 // ------------------------------------------------------------------ settings x allocator matrix
+macro_rules! cfg_run {
+    ($st:expr, $init:expr, $ia:expr, $ma:literal, $up:literal, false, $de:literal, $sh:literal, $mc:literal, $p:ty) => {
+        run_one::<TA<$p>, BumpSettings<$ma, $up, false, true, $de, $sh, $mc>>($st, $init, $ia,
+            Some(Bump::<TA<$p>, BumpSettings<$ma, $up, false, true, $de, $sh, $mc>>::unallocated as fn() -> _))
+    };
+    ($st:expr, $init:expr, $ia:expr, $ma:literal, $up:literal, true, $de:literal, $sh:literal, $mc:literal, $p:ty) => {
+        run_one::<TA<$p>, BumpSettings<$ma, $up, true, true, $de, $sh, $mc>>($st, $init, $ia, None)
+    };
+}
+
 macro_rules! matrix {
-    ($idx:expr, $st:expr, $init:expr, $ia:expr; $( $n:literal => ($ma:literal, $up:literal, $ga:literal, $de:literal, $sh:literal, $mc:literal, $p:ty) ),* $(,)?) => {
+    ($idx:expr, $st:expr, $init:expr, $ia:expr; $( $n:literal => ($ma:literal, $up:literal, $ga:tt, $de:literal, $sh:literal, $mc:literal, $p:ty) ),* $(,)?) => {
         match $idx {
-            $( $n => run_one::<TA<$p>, BumpSettings<$ma, $up, $ga, true, $de, $sh, $mc>>($st, $init, $ia), )*
+            $( $n => cfg_run!($st, $init, $ia, $ma, $up, $ga, $de, $sh, $mc, $p), )*
             _ => unreachable!(),
         }
     };
@@ -249,13 +263,13 @@ fn parse_script(path: &str) -> Vec<(usize, u64, u8, u8, (usize, usize), Vec<(boo
             "RUN" => runs.push((n(2), f[3].parse::<u64>().unwrap(), n(4) as u8, 0u8, (0usize, 0usize), vec![])),
             "INIT" => {
                 let r = runs.last_mut().unwrap();
-                match f[1] { "S" => { r.3 = 1; r.4 = (n(2), 0); } "C" => { r.3 = 2; r.4 = (n(2), n(3)); } _ => { r.3 = 0; } }
+                match f[1] { "S" => { r.3 = 1; r.4 = (n(2), 0); } "C" => { r.3 = 2; r.4 = (n(2), n(3)); } "U" => { r.3 = 3; } _ => { r.3 = 0; } }
             }
             "FAIL" => fail = true,
             "O" => {
                 let r = runs.last_mut().unwrap();
                 let op = match f[1] {
-                    "A" => Some(Op::Alloc { w: n(3) as u8, size: n(4), align: n(5), cls: if n(7) == 1 || n(7) == 2 { 0 } else { n(7) as u8 }, ty: 0, len: 0 }),
+                    "A" => Some(Op::Alloc { w: n(3) as u8, size: n(4), align: n(5), cls: match n(7) { 1 | 2 => 0, 5 => 4, x => x as u8 }, ty: 0, len: 0 }),
                     "D" => Some(Op::Dealloc { w: n(3) as u8, b: n(4) }),
                     "G" => Some(Op::Grow { w: n(3) as u8, b: n(4), size: n(5), align: n(6), zeroed: n(7) == 1 }),
                     "S" => Some(Op::Shrink { w: n(3) as u8, b: n(4), size: n(5), align: n(6) }),
